@@ -592,6 +592,15 @@ func (t *runTracer) probe(point string, g *hermes.GlobalVarsMain, extra ...inter
 			}
 			e["clamp"] = lim("clamp", clamp, eN)
 			e["minCk"] = fx("minCk", minCk, 6)
+			// the witness of the clamp that does not depend on the routine's internals: layers that end the sub-step at
+			// their floor (no more mineral N than the source term of the sub-step can have put there)
+			nfloor := 0
+			for z := 0; z < n; z++ {
+				if g.C1[z] <= math.Max(g.DN[z]*wdt, 0)+1e-12 {
+					nfloor++
+				}
+			}
+			e["nfloor"] = nfloor
 		}
 		if err, ok := extra[4].(error); ok && err != nil {
 			e["err"] = err.Error()
